@@ -132,7 +132,7 @@ def coq_eval_cases(prop, stream, imports, case_type, case_strs, evaluator, chunk
         name = f"cases_{stream}_{c}"
         path = os.path.join(d, name + ".v")
         with open(path, "w") as f:
-            f.write(imports + "\nOpen Scope Z_scope.\n" + prelude + "\n")
+            f.write(imports + "\nOpen Scope Z_scope.\nSet Printing Width 1000000.\n" + prelude + "\n")
             f.write(f"Definition cases : list ({case_type}) :=\n [{body}].\n")
             f.write(f"Eval vm_compute in ({evaluator} cases).\n")
         files.append((i, path))
@@ -147,7 +147,7 @@ def coq_eval_cases(prop, stream, imports, case_type, case_strs, evaluator, chunk
         m = re.search(r"= (\[.*?\])\s*: list \(Z \* Z\)", out)
         if not m:
             raise RuntimeError(f"cannot parse coqc output for {path}: {out[:500]}")
-        pairs = re.findall(r"\((-?\d+),\s*(-?\d+)\)", m.group(1))
+        pairs = re.findall(r"\(\s*(-?\d+)\s*,\s*(-?\d+)\s*\)", m.group(1))
         return [(base + int(a), int(b)) for a, b in pairs]
 
     with ThreadPoolExecutor(max_workers=NPROC) as ex:
